@@ -1,13 +1,24 @@
-//! codec_mc — bounded-exhaustive checks of the pure codecs and arithmetic:
-//! C09 (amounts), C19 (Equihash), C20 (chain-history tree), C10 (addresses), C12 (ZIP 321).
+//! codec_mc — bounded-exhaustive checks of the pure codecs and arithmetic
+mod c03;
+mod c04;
 mod c09;
+mod c10;
+mod c12;
+mod c19;
+mod c20;
 
 use mc_core::{machinery_error, replay_file, Args};
 use serde_json::Value;
 
 fn replay(prop: &str) -> fn(&str, &Value) -> Result<(), String> {
     match prop {
+        "C03" => c03::replay,
+        "C04" => c04::replay,
         "C09" => c09::replay,
+        "C10" => c10::replay,
+        "C12" => c12::replay,
+        "C19" => c19::replay,
+        "C20" => c20::replay,
         _ => machinery_error(&format!("codec_mc does not serve {prop}")),
     }
 }
@@ -19,7 +30,13 @@ fn main() {
         std::process::exit(replay_file(p, &rp));
     }
     let code = match args.prop.as_str() {
+        "C03" => c03::run(&args),
+        "C04" => c04::run(&args),
         "C09" => c09::run(&args),
+        "C10" => c10::run(&args),
+        "C12" => c12::run(&args),
+        "C19" => c19::run(&args),
+        "C20" => c20::run(&args),
         _ => unreachable!(),
     };
     std::process::exit(code);
